@@ -214,8 +214,10 @@ func (l *Lexer) nextInsideToken() token.Token {
 		}
 	}
 
-	l.readChar()
+	// stamp the token with the line it is on: reading the next character
+	// first would give a token directly followed by a newline the next line
 	tok.LineNumber = l.curLine
+	l.readChar()
 	return tok
 }
 
